@@ -8,14 +8,21 @@ from .grammar import pit as GP
 from .grammar import net2d as G2
 
 PIT_PROGS = {
-    # fixed (excluded) first layer, conv+BN, a layer invoked twice, BN in the head
+    # fixed (excluded) first layer, conv+BN, a conv+BN pair invoked twice, BN in the head
     'pit1d': {'dim': 1, 'cin': 3, 'size': 8,
-              'stages': [{'op': 'conv', 'exclude': True, 'cout': 3}, {'op': 'conv', 'bn': True, 'k': 5}, {'op': 'twice'}],
+              'stages': [{'op': 'conv', 'exclude': True, 'cout': 3}, {'op': 'conv', 'bn': True, 'k': 5},
+                         {'op': 'twice', 'a': {'bn': True}}],
               'head': {'kind': 'gaplin'}},
     # strided conv (frozen RF/dilation), input-connected depthwise (frozen features), residual pair (shared masker)
     'pit1d_frozen': {'dim': 1, 'cin': 3, 'size': 8,
                      'stages': [{'op': 'conv', 'dw': True}, {'op': 'conv', 's': 2, 'k': 5}, {'op': 'residual'}],
                      'head': {'kind': 'flatlin'}},
+    # the network output is a flattened conv activation: the last conv is output-tied (frozen features mask)
+    'pit1d_flatout': {'dim': 1, 'cin': 3, 'size': 8, 'stages': [{'op': 'conv', 'k': 3}, {'op': 'conv', 'k': 3, 'cout': 4}],
+                      'head': {'kind': 'flatout'}},
+    # a channel concat whose operands all have a constant width (the network input and a pooled copy of it)
+    'pit1d_catin': {'dim': 1, 'cin': 3, 'size': 8, 'stages': [{'op': 'concat', 'members': ['id', 'mp']}, {'op': 'conv', 'bn': True}],
+                    'head': {'kind': 'flatlin'}},
     'pit2d': {'dim': 2, 'cin': 3, 'size': 6,
               'stages': [{'op': 'conv', 'bn': True}, {'op': 'residual'}, {'op': 'pool', 'kind': 'max'}],
               'head': {'kind': 'flatlin'}},
@@ -27,6 +34,9 @@ MPS_PROGS = {
     'mps_b': {'cin': 3, 'size': 6, 'stages': [{'op': 'conv', 'cout': 4}, {'op': 'conv', 'dw': True}, {'op': 'pool'}],
               'head': 'linlin'},
 }
+
+# two network inputs summed before the first layer: the quantized sum is the only owner of its activation quantizer
+MPS_PROGS['mps_twoin'] = {'cin': 3, 'size': 6, 'two_in': 'sum', 'stages': [{'op': 'conv', 'cout': 4}, {'op': 'pool'}], 'head': 'flatlin'}
 
 SN_PROGS = {
     'sn_a': {'cin': 3, 'size': 6, 'stages': [{'op': 'conv', 'cout': 4}, {'op': 'sn', 'branches': ['c3', 'c1', 'seq', 'id']},
@@ -54,7 +64,7 @@ def make(method, name, seed, train=False, **kw):
         prog = MPS_PROGS[name]
         model, x = G2.build(prog, seed)
         model.train(train)
-        args = dict(input_shape=G2.input_shape(prog))
+        args = G2.shape_args(prog, x)
         args.update(kw)
         return MPS(model, **args), x, model
     if method == 'sn':
@@ -68,6 +78,10 @@ def make(method, name, seed, train=False, **kw):
         nas.train(train)
         return nas, x, model
     raise ValueError(method)
+
+
+def call(net, x):
+    return net(*x) if isinstance(x, tuple) else net(x)
 
 
 def tensor_hash(t):
